@@ -109,9 +109,7 @@ def decode_ragged_dir(path):
         raise DecodeError(f'top_atom:{top["atom"]}!={list(v.shape[1:])}')
     if top['numtype'] != dv['numtype']:
         raise DecodeError('top_numtype')
-    if not os.path.isfile(os.path.join(path, 'README.txt')):
-        raise DecodeError('missing:README.txt')
-    return subs, v, i, top
+    return subs, v, i, top        # the top-level README.txt is C08's subject, not part of the format C05 describes
 
 
 # ---- O-snapshot ------------------------------------------------------------
